@@ -54,7 +54,24 @@ def record(c):
     cc = dict(c, sample_rate=fh(c["sample_rate"]))
     if c.get("obs_length") is not None:
         cc["obs_length"] = fh(c["obs_length"])
-    src, be = R.build_backend(cc)
+    import contextlib
+    stack = contextlib.ExitStack()
+    input_blocks = None
+    if c.get("input_blocks"):
+        # a backend built on existing RAW data: first make that data (same geometry), then from_data
+        import setigen.voltage as V
+        din = stack.enter_context(R.Scratch())
+        stem_in = os.path.join(din, "in")
+        cin = dict(cc, num_blocks=c["input_blocks"], obs_length=None, length_mode="num_blocks", blocks_per_file=c.get("in_bpf", 2), seed=c["seed"] + 1)
+        _, be_in = R.build_backend(cin)
+        R.record(be_in, stem_in, cin, header_dict={})
+        src = R.build_source(cc)
+        be = V.RawVoltageBackend.from_data(stem_in, src, digitizer=V.RealQuantizer(target_fwhm=32, num_bits=8),
+                                           filterbank=V.PolyphaseFilterbank(num_taps=c["taps"], num_branches=c["nb"]),
+                                           start_chan=c["start_chan"], num_subblocks=c["num_subblocks"])
+        input_blocks = int(be.input_num_blocks)
+    else:
+        src, be = R.build_backend(cc)
     log = []
     orig = src.get_samples
 
@@ -69,7 +86,8 @@ def record(c):
         try:
             R.record(be, stem, cc, header_dict={} if c.get("own_dict", True) else None)
         except Exception as ex:
-            return dict(error=repr(ex))
+            stack.close()
+            return dict(error=repr(ex), error_type=type(ex).__name__)
         files = R.list_files(stem)
         out["files"] = [os.path.basename(f) for f in files]
         blocks = []
@@ -95,6 +113,10 @@ def record(c):
             streams.append(float(s.t_start - t0).hex())
     out["stream_clock_adv"] = streams
     out["nsub_after"] = int(be.num_subblocks)
+    out["input_blocks"] = input_blocks
+    if c.get("obs_length") is not None:
+        out["requested_by_obs"] = int(be.get_num_blocks(cc["obs_length"]))
+    stack.close()
     return out
 
 
